@@ -30,7 +30,7 @@ func (tr *FnTrans) run() (err error) {
 		return err
 	}
 	tr.resolveSites()
-	tr.entryHeap = tr.smt.newRootHeap()
+	tr.entryHeap = tr.newRoot()
 	// parameters
 	for _, p := range tr.fn.Params {
 		tr.val(p)
@@ -259,7 +259,7 @@ func (tr *FnTrans) loopHeader(h *ssa.BasicBlock, ord int, st *BState, phiVal fun
 	mod, all := tr.modifiedIn(body)
 	loopObjs := tr.loopObjs
 	if all {
-		st.heap = tr.smt.newRootHeap()
+		st.heap = tr.newRoot()
 	} else {
 		st.heap = st.heap.child()
 		var ks []string
@@ -268,7 +268,7 @@ func (tr *FnTrans) loopHeader(h *ssa.BasicBlock, ord int, st *BState, phiVal fun
 		}
 		sort.Strings(ks)
 		for _, k := range ks {
-			st.heap.set(k, tr.smt.fresh("Hloop_"+heapKey(k), st.heap.arraySort(k)))
+			st.heap.set(k, tr.freshHeap("Hloop_"+heapKey(k), st.heap.arraySort(k)))
 		}
 		// local variables declared before the loop and assigned inside it: only their own cells change
 		tr.curState = st
@@ -502,7 +502,7 @@ func (tr *FnTrans) instr(st *BState, in ssa.Instruction) {
 			case tr.in[d.Block()] != nil:
 				// a defer statement that only some paths to this return executed: its effects may
 				// or may not happen; be conservative and forget the heap
-				st.heap = tr.smt.newRootHeap()
+				st.heap = tr.newRoot()
 				tr.note("conditionally executed defer: heap forgotten at function exit")
 			}
 		}
@@ -1321,7 +1321,7 @@ func (tr *FnTrans) doCall(st *BState, ci ssa.CallInstruction) Val {
 	} else if !pure {
 		mod, all := tr.callEffects(ci)
 		if all {
-			st.heap = tr.smt.newRootHeap()
+			st.heap = tr.newRoot()
 		} else {
 			var ks []string
 			for k := range mod {
@@ -1329,7 +1329,7 @@ func (tr *FnTrans) doCall(st *BState, ci ssa.CallInstruction) Val {
 			}
 			sort.Strings(ks)
 			for _, k := range ks {
-				st.heap.set(k, tr.smt.fresh("Hcall_"+heapKey(k), st.heap.arraySort(k)))
+				st.heap.set(k, tr.freshHeap("Hcall_"+heapKey(k), st.heap.arraySort(k)))
 			}
 		}
 	}
@@ -1566,7 +1566,7 @@ func pointeeArg(cc *ssa.CallCommon, name string) (ssa.Value, types.Type) {
 func (tr *FnTrans) havocPointee(st *BState, site *Site, cc *ssa.CallCommon, name string) {
 	pv, t := pointeeArg(cc, name)
 	if t == nil {
-		st.heap = tr.smt.newRootHeap()
+		st.heap = tr.newRoot()
 		return
 	}
 	if al, ok := pv.(*ssa.Alloc); ok {
@@ -1584,7 +1584,7 @@ func (tr *FnTrans) havocPointee(st *BState, site *Site, cc *ssa.CallCommon, name
 	all := false
 	tr.reachableCells(t, mod, map[types.Type]bool{}, &all, false)
 	if all {
-		st.heap = tr.smt.newRootHeap()
+		st.heap = tr.newRoot()
 		return
 	}
 	var ks []string
@@ -1593,7 +1593,7 @@ func (tr *FnTrans) havocPointee(st *BState, site *Site, cc *ssa.CallCommon, name
 	}
 	sort.Strings(ks)
 	for _, k := range ks {
-		st.heap.set(k, tr.smt.fresh("Hdec_"+heapKey(k), st.heap.arraySort(k)))
+		st.heap.set(k, tr.freshHeap("Hdec_"+heapKey(k), st.heap.arraySort(k)))
 	}
 }
 
@@ -1869,7 +1869,7 @@ func (tr *FnTrans) moveCells(st *BState, et types.Type, moves []cellMove, tag st
 	is := tr.smt.intSortW(64)
 	for _, cs := range sorts {
 		old := st.heap.lookup(cs)
-		nw := tr.smt.fresh("H"+tag+"_"+heapKey(cs), st.heap.arraySort(cs))
+		nw := tr.freshHeap("H"+tag+"_"+heapKey(cs), st.heap.arraySort(cs))
 		st.heap.set(cs, nw)
 		var changed []string
 		for _, p := range bySort[cs] {
@@ -1934,7 +1934,7 @@ func (tr *FnTrans) copyCells(st *BState, et types.Type, dst, src Val, n string) 
 		cells := map[string]bool{}
 		tr.cellSorts(et, cells)
 		for cs := range cells {
-			st.heap.set(cs, tr.smt.fresh("Hcopy_"+heapKey(cs), st.heap.arraySort(cs)))
+			st.heap.set(cs, tr.freshHeap("Hcopy_"+heapKey(cs), st.heap.arraySort(cs)))
 		}
 		tr.note("copy: element cells havocked (%s)", why)
 	}
@@ -1975,7 +1975,7 @@ func (tr *FnTrans) appendOp(st *BState, ci ssa.CallInstruction, args []Val) Val 
 		cells := map[string]bool{}
 		tr.cellSorts(sl.Elem(), cells)
 		for cs := range cells {
-			st.heap.set(cs, tr.smt.fresh("Happ_"+heapKey(cs), st.heap.arraySort(cs)))
+			st.heap.set(cs, tr.freshHeap("Happ_"+heapKey(cs), st.heap.arraySort(cs)))
 		}
 		tr.note("append: element cells havocked (%s)", why)
 	}
@@ -2034,6 +2034,22 @@ func (tr *FnTrans) appendOp(st *BState, ci ssa.CallInstruction, args []Val) Val 
 		havocAll("array-valued elements")
 	}
 	return Val{T: res, Ty: s.Ty}
+}
+
+// newRoot creates a heap state about which nothing is known, remembering the allocation counter.
+func (tr *FnTrans) newRoot() *Heap {
+	h := tr.smt.newRootHeap()
+	h.ac = tr.curAC()
+	return h
+}
+
+// freshHeap declares an unconstrained heap array; every pointer it holds refers to an object that
+// exists now (its id is below the current allocation counter).
+func (tr *FnTrans) freshHeap(prefix, sortName string) string {
+	n := tr.smt.fresh(prefix, sortName)
+	tr.baseAC[n] = tr.curAC()
+	tr.heapBases[n] = []string{n}
+	return n
 }
 
 // newLoc returns the address of a new object. Outside loops every allocation site gets a distinct
